@@ -117,6 +117,22 @@ def mutate(rng, toks, kind=None):
         nxt = [s for s in starts if s > a]
         b = nxt[0] if nxt else len(toks)
         toks[b:b] = toks[a:b]
+    elif kind == "retag":
+        # same field number, another / no / an added option letter: near-miss tags for the cursor's detection
+        t, c = toks[i]
+        m = re.fullmatch(r"(\d{2})([A-Z]?)", t)
+        if not m:
+            return None
+        new = m.group(1) + rng.choice([l for l in ["", "A", "B", "C", "D", "F", "G", "H", "K", "L", "M", "P", "R", "S"] if l != m.group(2)])
+        toks[i] = (new, c)
+    elif kind == "insert_sibling":
+        # a copy of a field under a sibling tag, placed just before it
+        t, c = toks[i]
+        m = re.fullmatch(r"(\d{2})([A-Z]?)", t)
+        if not m:
+            return None
+        new = m.group(1) + rng.choice([l for l in ["", "A", "B", "C", "D", "F", "G", "H", "K", "L", "M", "P", "R", "S"] if l != m.group(2)])
+        toks.insert(i, (new, c))
     else:
         return None
     return kind, toks
